@@ -20,7 +20,8 @@ dStr == JArr(<<JStr(cA), JStr(<<120, 97, 98>>), JStr(cB), JStr(<<98, 97>>), JStr
 dObj == JObj(<<cA, cB>>, <<JArr(<<JInt(1), JInt(2)>>), JObj(<<cA>>, <<JInt(1)>>)>>)                       \* {"a":[1,2],"b":{"a":1}}
 dMix == JArr(<<JObj(<<cA>>, <<JInt(1)>>), JObj(<<cA>>, <<JInt(2)>>), JArr(<<JInt(1)>>), JStr(<<97, 98>>)>>) \* [{"a":1},{"a":2},[1],"ab"]
 dSet == JObj(<<<<101>>, cL>>, <<JArr(<<JInt(1), JInt(2), JInt(3)>>), JArr(<<JInt(1), JInt(2)>>)>>)          \* {"e":[1,2,3],"l":[1,2]}
-Docs0 == <<dStr, dObj, dMix, dSet>>
+dEmpty == JObj(<<<<100>>, <<105>>>>, <<JObj(<<cA>>, <<JObj(<<cA>>, <<JObj(<<cA>>, <<JInt(1)>>)>>)>>), JArr(<<>>)>>)     \* {"d":{"a":{"a":{"a":1}}},"i":[]}
+Docs0 == <<dStr, dObj, dMix, dSet, dEmpty>>
 
 Pat1 == <<97, 124, 98>>        \* a|b      : match and search differ on "xab", "ba", "ab"
 Pat2 == <<97, 46, 42>>         \* a.*
@@ -29,7 +30,9 @@ SQ == << Re("match", Pat1), Re("search", Pat1), Re("match", Pat2), Re("search", 
          <<N1(cA)>>, <<Child(<<SWild>>)>>, <<Desc(<<SName(cA)>>)>>, <<Child(<<SIndex(0), SIndex(0)>>)>>,
          Flt1(LCmp("==", RelN(cA), ELit(JInt(1)))), Flt1(LCmp(">", EFn("length", <<ERel(<<>>)>>), ELit(JInt(1)))),
          Flt1(LTest(FALSE, EAbs(<<N1(cB)>>))),                                                                      \* 11: $[?$.b]   $-rooted existence test
-         <<N1(<<101>>), Child(<<SFilter(LTest(FALSE, EFn("in", <<ERel(<<>>), EAbs(<<N1(cL)>>)>>)))>>)>> >>          \* 12: $.e[?in(@, $.l)]
+         <<N1(<<101>>), Child(<<SFilter(LTest(FALSE, EFn("in", <<ERel(<<>>), EAbs(<<N1(cL)>>)>>)))>>)>>,           \* 12: $.e[?in(@, $.l)]
+         <<N1(<<105>>), Desc(<<SName(cA)>>)>>,                                                                       \* 13: $.i..a   (.. applied to an empty array)
+         <<Desc(<<SName(cA)>>)>> >>                                                                                  \* 14: $..a
 Entries == <<"query", "query_with_path", "query_only_path", "prepared">>
 
 OpBlank == [k |-> "eval", e |-> "", q |-> 0, d |-> 0, loc |-> <<>>, v |-> JNull]
@@ -42,6 +45,7 @@ Ops == << Ev("query", 1, 1), Ev("prepared", 2, 1), Ev("query_only_path", 2, 1), 
           Ev("query", 7, 2), Ev("prepared", 7, 3), Ev("query_only_path", 8, 2), Ev("query_with_path", 8, 3), Ev("query", 8, 1),
           Ev("prepared", 9, 3), Ev("query", 10, 1), Ev("prepared", 10, 3),
           Ev("prepared", 11, 2), Ev("query", 11, 2), Ev("prepared", 12, 4), Ev("query_with_path", 12, 4),
+          Ev("query", 13, 5), Ev("prepared", 13, 5), Ev("query_with_path", 14, 5), Ev("prepared", 14, 2),
           Wr(1, <<IdxStep(1)>>, JStr(cB)), Wr(2, <<NameStep(cA)>>, JInt(7)), Wr(3, <<IdxStep(0), NameStep(cA)>>, JInt(2)),
           Wr(2, <<>>, JArr(<<JObj(<<cA>>, <<JInt(1)>>)>>)),                                   \* replaces the whole document in place: $.b disappears
           Wr(4, <<NameStep(cL), IdxStep(0)>>, JInt(3)) >>                                     \* changes the list the membership test reads
